@@ -22,10 +22,13 @@ RULE = ("case = scope program as in C06 (incl. disposables with gated / raising 
 
 def extra_obligations():
     """TaskGroupContext.__aenter__/__aexit__ regenerated from /repo's tasks.py: the variable is reset before the wait, a
-    CancelledError out of the group's exit wait propagates as that object, everything else is silenced"""
+    CancelledError out of the group's exit wait propagates as that object, everything else is silenced; `ctx.check_cancellation`
+    raises exactly when the current task's count of cancellation requests is above zero and consumes nothing; `ctx.cancel` asks for
+    the current task's cancellation once per call, whatever the count already is"""
     from harness import core, regen
 
-    return [e for e in regen.check("contexts", core.REPO, core.LEAN) if ".group_" in e["name"]]
+    return [e for e in regen.check("contexts", core.REPO, core.LEAN) if ".group_" in e["name"]] + \
+        regen.check("cancel", core.REPO, core.LEAN)     # ctx.check_cancellation / ctx.cancel
 
 
 def corpus():
